@@ -229,7 +229,7 @@ def SameData (a b : EData) : Prop := a = { b with node := a.node, nodeMod := a.n
 the statement object, and the same children, each equal but for the module numbers of the nodes that
 now live in a submodule's text — in another order. -/
 def SameTop (σ : Nat → Nat) (t' t : Entry) : Prop :=
-  SameData t'.d t.d ∧ (renL σ t'.dir).Perm t.dir ∧ t'.inp = t.inp ∧ t'.out = t.out
+  SameData t'.d t.d ∧ (renL σ t'.dir).Perm t.dir ∧ (t'.inp = [] ∧ t.inp = []) ∧ (t'.out = [] ∧ t.out = [])
 
 /-- The canonical dump of one module's tree, as the correspondence runner prints and compares it
 (children in name order at every level; kind, config, type, defaults, constraints, namespace,
